@@ -167,6 +167,22 @@ proof fn lemma_expires_after_lifetime(tr: Seq<Subscription>, acts: Seq<UpdateSta
 }
 '''
 
+CANARY = '''
+proof fn canary_update_state_pre(s: Subscription, reason: TickReason, p: SubscriptionStateParams)
+    requires inv(s), !(reason == TickReason::ReceivePublishRequest && p.publishing_timer_expired),
+        scen_a(s, reason, p), inv_a(s), !kf_c22_ka1_lt3(s),
+    ensures false,
+{}
+proof fn canary_scen_b(s: Subscription, reason: TickReason, p: SubscriptionStateParams)
+    requires inv(s), scen_b(s, reason, p), s.lifetime_counter > 1,
+    ensures false,
+{}
+proof fn canary_scen_a_rx(s: Subscription, reason: TickReason, p: SubscriptionStateParams)
+    requires inv(s), scen_a_rx(s, reason, p), inv_a(s),
+    ensures false,
+{}
+'''
+
 
 def build(manifest):
     src = Src('server/subscriptions/subscription.rs', manifest)
@@ -194,39 +210,9 @@ def build(manifest):
     for n in ['reset_keep_alive_counter', 'reset_lifetime_counter', 'start_publishing_timer', 'update_state']:
         a.add(norm_vis(fn[n]), n, 'fn')
     a.add('}', None)
-    # lemmas: one region per proof fn
-    for part in re.split(r'(?m)^(?=proof fn )', LEMMAS):
-        m = re.match(r'proof fn (\w+)', part)
-        if m:
-            a.add(part, m.group(1), 'lemma')
-        else:
-            a.add(part, 'lemma_specs', 'env')
-    # vacuity canary: the precondition of update_state is satisfiable together with each scenario
-    a.add('''
-proof fn canary_update_state_pre(s: Subscription, reason: TickReason, p: SubscriptionStateParams)
-    requires inv(s), !(reason == TickReason::ReceivePublishRequest && p.publishing_timer_expired),
-        scen_a(s, reason, p), inv_a(s), !kf_c22_ka1_lt3(s),
-    ensures false,
-{}
-proof fn canary_scen_b(s: Subscription, reason: TickReason, p: SubscriptionStateParams)
-    requires inv(s), scen_b(s, reason, p), s.lifetime_counter > 1,
-    ensures false,
-{}
-proof fn canary_scen_a_rx(s: Subscription, reason: TickReason, p: SubscriptionStateParams)
-    requires inv(s), scen_a_rx(s, reason, p), inv_a(s),
-    ensures false,
-{}
-''', None)
+    add_proof_fns(a, LEMMAS, 'lemma')
+    add_proof_fns(a, CANARY, 'canary')
     a.add('}\nfn main() {}\n', None)
-    # label canaries / witnesses by scanning
-    txt = a.text().split('\n')
-    for i, ln in enumerate(txt):
-        m = re.match(r'proof fn (canary_\w+)', ln)
-        if m:
-            j = i
-            while not txt[j].startswith('{}') and not txt[j].rstrip().endswith('{}'):
-                j += 1
-            a.regions.append((i + 1, j + 1, m.group(1), 'canary'))
     return dict(asm=a, pid=PID, short=SHORT, clauses={k: v[1] for k, v in SPEC.items()},
                 twins={'update_state': 'c22::c22_update_state_twin'}, witness={},
                 assumptions=[
